@@ -60,7 +60,13 @@ func (r *Runner) fillExpandConfig(ctx context.Context) {
 				if err != nil {
 					return err
 				}
-				_, err = io.Copy(w, f)
+				_, err = io.Copy(w, readerFunc(func(p []byte) (int, error) {
+					// The file may never end, such as /dev/zero or a fifo.
+					if err := ctx.Err(); err != nil {
+						return 0, err
+					}
+					return f.Read(p)
+				}))
 				f.Close()
 				return err
 			}
@@ -198,6 +204,10 @@ func (c *cmdSubstWriter) close() {
 	c.closed = true
 	c.mu.Unlock()
 }
+
+type readerFunc func(p []byte) (int, error)
+
+func (f readerFunc) Read(p []byte) (int, error) { return f(p) }
 
 // catShortcutArg checks if a statement is of the form "$(<file)". The redirect
 // word is returned if there's a match, and nil otherwise.
